@@ -265,8 +265,12 @@ type entitySetSymbolRuntime struct {
 }
 
 func (symbol *entitySetSymbolRuntime) Current() []byte {
-	_, value := GetTypeAndValue(symbol.value)
-	return value
+	if len(symbol.value) == 0 {
+		return nil
+	}
+	// not GetTypeAndValue: that returns nil for the empty string, which the scanner a sub-query wraps around this
+	// cursor reads as the end of the set
+	return symbol.value[1:]
 }
 
 func (symbol *entitySetSymbolRuntime) Next() {
